@@ -493,6 +493,15 @@ func (env *Env) evalCall(e *Expr) *Val {
 	case "ite":
 		return iteVal(env.boolTerm(e.Args[0]), env.eval(e.Args[1]), env.eval(e.Args[2]))
 	}
+	if strings.HasPrefix(e.Name, "visited#") && len(e.Args) == 1 {
+		// visited#n(k): key k has been yielded by the n-th map range loop of this function
+		if env.frame == nil {
+			efail("%s is only available in loop invariants", e.Name)
+		}
+		k := env.eval(e.Args[0])
+		key := "v:" + env.frame.fn.Name() + ".visited#" + strings.TrimPrefix(e.Name, "visited#")
+		return mathBool(Select(env.cur.hget(key, SArr(SInt, SBool)), mapKeyTerm(k)))
+	}
 	if t, ok := convTypes[e.Name]; ok && len(e.Args) == 1 {
 		x := env.intTerm(e.Args[0])
 		bits, signed, _ := intInfo(t)
